@@ -6,7 +6,10 @@
      datastores, the sync path, the NETCONF XML adapter, the JSON and XML tree importers; plus the string level:
      every string up to a length over the path alphabet through ParsePath and friends;
  (3) TLC validates the outcomes against ShapesTrace.tla: a panic (in the handler or in any server goroutine: the
-     process dies) or a hang is a violation."""
+     process dies) or a hang is a violation;
+ (4) transaction histories (the regression corpus of the intents engine and TLC-generated histories of the validity,
+     presence, choice and multi-key families) are replayed only to see the server survive them: a panic in a
+     validation goroutine several transactions into a history is a crash caused by a request all the same."""
 import collections, concurrent.futures, json, os, random, re, shutil, time
 import vlib
 from vlib import log, Inconclusive
@@ -105,9 +108,67 @@ def run_part(vh, batches, out, wd, tag):
     return crashes
 
 
+def survive(vh, behs, wd):
+    """Replay transaction histories (behaviours of the intents engine) only to see the server survive them.
+    Returns (number replayed, [(behaviour, panic text)]).  All in one process first; if that dies (the trace file is
+    buffered, so it does not tell where) every history runs in a process of its own."""
+    def one(k, bs):
+        bf, tf = os.path.join(wd, "hist%s.ndjson" % k), os.path.join(wd, "histtrace%s.ndjson" % k)
+        with open(bf, "w") as fh:
+            for b in bs:
+                fh.write(json.dumps(b, sort_keys=True) + "\n")
+        return vlib.run([vh, "intents", "-in", bf, "-out", tf], env=dict(TMPDIR=wd), timeout=3000)
+    rc, outp = one("all", behs)
+    if rc == 0:
+        return len(behs), []
+    if "panic:" not in outp and "fatal error:" not in outp:
+        raise Inconclusive("harness intents failed without a panic:\n" + outp[-2000:])
+    died = []
+    with concurrent.futures.ThreadPoolExecutor(12) as ex:
+        for b, (rc1, out1) in zip(behs, ex.map(lambda kb: one("-%d" % kb[0], [kb[1]]), enumerate(behs))):
+            if rc1 != 0 and ("panic:" in out1 or "fatal error:" in out1):
+                stack = [x.strip() for x in out1.splitlines() if x.startswith("panic:") or x.startswith("fatal error:") or "/repo/pkg" in x]
+                died.append((b, " | ".join(stack[:6])[:500]))
+            elif rc1 != 0:
+                raise Inconclusive("harness intents failed on %s:\n%s" % (b["id"], out1[-1500:]))
+    if not died:
+        raise Inconclusive("the harness died but no single history reproduces it:\n" + outp[-2000:])
+    return len(behs), died[:20]
+
+
+def histories(tier, seed):
+    import eng_intents
+    behs = eng_intents.regress()
+    plans = [("IntentsGen_valid.cfg", 40, 6), ("IntentsGen_pres.cfg", 40, 6), ("IntentsGen_choice2.cfg", 30, 6), ("IntentsGen_mkey.cfg", 30, 6)]
+    if tier == "thorough":
+        plans = [(c, n * 6, d) for (c, n, d) in plans] + [("IntentsGen_cross.cfg", 150, 6), ("IntentsGen_dense.cfg", 100, 6), ("IntentsGen_ns.cfg", 100, 6)]
+    for (cfg, num, steps) in plans:
+        raw = vlib.tlc_generate("IntentsGen.tla", cfg, num, steps * 9 + 10, seed, steps)
+        fam = cfg[len("IntentsGen_"):-4]
+        for k, r in enumerate(raw):
+            b = eng_intents.convert(r, "hist-%s-s%d-%d" % (fam, seed, k), eng_intents.GAMMAS[(seed + k) % len(eng_intents.GAMMAS)])
+            for st in b["steps"]:
+                st.pop("rescfg", None)
+            behs.append(b)
+    return eng_intents.dedup(behs)
+
+
 def check(prop, tier, seed, replay):
     t0 = time.time()
     vh = vlib.build_harness()
+    if replay is not None:
+        with open(replay) as fh:
+            rb = json.load(fh)["behaviour"]
+        if "steps" in rb:
+            wd = vlib.scratch("c20")
+            try:
+                n, died = survive(vh, [rb], wd)
+            finally:
+                shutil.rmtree(wd, ignore_errors=True)
+            for (b, stack) in died:
+                print("VIOLATION property=C20 replay=%s" % replay)
+                log("  NoPanicInHistory %s: %s" % (b["id"], stack[:300]))
+            return 1 if died else 0
     rnd = random.Random(seed)
     wd = vlib.scratch("c20")
     try:
@@ -139,6 +200,11 @@ def check(prop, tier, seed, replay):
         if len(events) - len(strings_ev) < len(sel):
             raise Inconclusive("only %d of %d shapes were executed" % (len(events), len(sel)))
         verdict = vlib.tlc_trace("ShapesTrace.tla", "ShapesTrace.cfg", trace, timeout=3000)
+        nhist, died = (0, [])
+        if replay is None:
+            hb = histories(tier, seed)
+            nhist, died = survive(vh, hb, wd)
+            log("%d transaction histories replayed for survival, %d killed the server" % (nhist, len(died)))
         if os.environ.get("VERIF_KEEP"):
             os.makedirs(os.environ["VERIF_KEEP"], exist_ok=True)
             shutil.copy(trace, os.path.join(os.environ["VERIF_KEEP"], "trace.ndjson"))
@@ -166,6 +232,12 @@ def check(prop, tier, seed, replay):
                samples=[dict(shape=e["s"], outcome=e["outcome"], detail=e["detail"][:120]) for e in shape_events[:4]] + [dict(strings=dict(alphabet=e["alphabet"], maxlen=e["maxlen"], count=e["count"], parsed=e["parsed"])) for e in strings_ev],
                design_models=[design] if design else [], exhaustive=(tier == "thorough"))
     rc = 0
+    cov["histories_survived"] = nhist - len(died)
+    for (b, stack) in died:
+        path = vlib.save_replay("C20", "NoPanicInHistory", b, dict(clause="NoPanicInHistory", detail=stack))
+        print("VIOLATION property=C20 replay=%s" % path)
+        log("  NoPanicInHistory %s: %s" % (b["id"], stack[:300]))
+        rc = 1
     for (clause, entry, site), es in list(groups.items())[:40]:
         e = es[0]
         path = vlib.save_replay("C20", clause + "-" + entry, dict(shape=e["s"]), dict(clause=clause, outcome=e["outcome"], detail=e["detail"], similar=len(es)))
@@ -174,5 +246,5 @@ def check(prop, tier, seed, replay):
         rc = 1
     if rc == 0 and replay is None and (nt["responses"] < 100 or nt["errors"] < 100):
         raise Inconclusive("vacuous run: %s" % nt)
-    vlib.write_evidence("C20", tier, seed, "fault_enumeration", cov, ASSUME, len(verdict["bad"]), time.time() - t0)
+    vlib.write_evidence("C20", tier, seed, "fault_enumeration", cov, ASSUME, len(verdict["bad"]) + len(died), time.time() - t0)
     return rc
